@@ -78,6 +78,22 @@ DacLen(hl) == 4 + 4 + 16 + 4 + hl + 4 + 4 + 4 + 32
 ValidCase(cls, v, n, used) == /\ cls \in Classes /\ v \in Versions /\ n \in 1..4 /\ used \in 0..(n - 1)
                               /\ (cls \in {"ele1", "ele2"} => n = 4)            \* an enclave SRK table always has four keys
                               /\ (cls = "ele2" => ~IsRsa(v))                   \* container version 2 is asserted for the ECC key types
+\* key shapes: every coordinate of an ECC key is encoded in KeySize(v) bytes whatever its value.  lz names the key of the case whose
+\* public point has a coordinate (coord = "x" / "y") starting with a zero byte: the RoT key in use, another RoT key of the set, or the
+\* debug key.  Asked for P-256 / P-384 (for P-521 the top byte of a 66-byte coordinate is 0 or 1 anyway; an RSA modulus has no leading zero).
+LzRoles == {"none", "used", "other", "dck"}
+Coords == {"-", "x", "y"}
+ValidShape(v, n, lz, coord) == /\ lz \in LzRoles /\ coord \in Coords /\ ((lz = "none") = (coord = "-"))
+                               /\ (lz # "none" => KeySize(v) \in {32, 48})
+                               /\ (lz = "other" => n > 1)
+\* shapes = [rot |-> <<shape of RoT key 0, ...>>, dck |-> shape] as found in the key files ("-", "x", "y", "xy"): the keys of the case have the asked shape
+ShapesFit(v, n, used, lz, coord, shapes) ==
+  /\ Len(shapes.rot) = n
+  /\ KeySize(v) \in {32, 48} =>
+       /\ shapes.dck = (IF lz = "dck" THEN coord ELSE "-")
+       /\ shapes.rot[used + 1] = (IF lz = "used" THEN coord ELSE "-")
+       /\ IF lz = "other" THEN \E j \in (1..n) \ {used + 1} : shapes.rot[j] = coord /\ \A i \in (1..n) \ {used + 1, j} : shapes.rot[i] = "-"
+          ELSE \A i \in (1..n) \ {used + 1} : shapes.rot[i] = "-"
 \* the root-of-trust hash clause needs the image side to define a value: it does not for P-521 (no certificate block takes it)
 RotHashDefined(v) == v # <<2, 2>>
 
